@@ -1287,3 +1287,21 @@ def trailing_items(t, n, depth=0):
     if is_call_to(t, 'builtin.tuple', 'builtin.list') and len(call_parts(t)[1]) == 1:
         return trailing_items(call_parts(t)[1][0], n, depth + 1)
     return None
+
+
+def inserted_singleton_axes(t, depth=0):
+    """positions (negative, counted from the right) of the singleton axes that t inserts into the array it is a view of: x[..., None, :, :] -> {-3};
+    followed through swapaxes / adjacent moveaxis (np.swapaxes(x[..., None, :], -3, -2) -> {-3}).  None when t inserts nothing / is not of that form."""
+    t = strip_views(t)
+    if not isinstance(t, T) or depth > 6:
+        return None
+    ins = newaxis_insertions(t)
+    if ins is not None and ins[1] and all(isinstance(p, int) and p < 0 for p in ins[1]):
+        return set(ins[1])
+    r = axis_reordering(t)
+    if r is not None and r[1][0] == 'swap':
+        inner = inserted_singleton_axes(r[0], depth + 1)
+        a, b = tuple(r[1][1])
+        if inner is not None and a < 0 and b < 0:
+            return {b if p == a else a if p == b else p for p in inner}
+    return None
